@@ -64,7 +64,9 @@ pub struct Stats {
     first_samples: Vec<String>,
     low_samples: BTreeMap<u64, String>,
     pub known_hits: BTreeMap<String, (u64, String)>,
-    pub frozen: bool
+    pub frozen: bool,
+    /// set by a sub-check that had to cut an enumeration short (e.g. a capped schedule exploration)
+    pub incomplete: bool
 }
 
 impl Stats {
@@ -103,6 +105,8 @@ impl Stats {
         if k < worst { self.low_samples.remove(&worst); self.low_samples.insert(k, f()); }
     }
 
+    pub fn mark_incomplete(&mut self) { self.incomplete = true }
+
     pub fn distinct_nontrivial(&self) -> u64 { self.nontrivial.len() as u64 + self.nontrivial_by_construction }
 
     pub fn samples(&self) -> Vec<String> {
@@ -113,6 +117,7 @@ impl Stats {
         self.evaluations += o.evaluations;
         for h in o.nontrivial { if self.nontrivial.len() < DISTINCT_CAP { self.nontrivial.insert(h); } else { self.nontrivial_capped = true } }
         self.nontrivial_capped |= o.nontrivial_capped;
+        self.incomplete |= o.incomplete;
         self.nontrivial_by_construction += o.nontrivial_by_construction;
         for (k, v) in o.classes { *self.classes.entry(k).or_insert(0) += v }
         for s in o.first_samples { if self.first_samples.len() < 2 { self.first_samples.push(s) } }
@@ -481,6 +486,7 @@ pub fn run_property(subs: &[Sub], prop: &str, tier: &str, seed: u64, root: &Path
                 (s, v, c, n)
             }
         };
+        let complete = complete && !stats.incomplete;
         all_complete &= complete && viol.is_none();
         rules.push(format!("[{}] {}", sub.name, sub.rule));
         sub_reports.push(json!({
